@@ -276,8 +276,9 @@ def run(cx):
         vals = {}
         dag = b.dag()
         for m in st:
-            tgt = simplify(dag.place(m.data['pl'], m.bb, m.idx))
-            val = simplify(dag.rvalue(m.data['rv'], m.bb, m.idx))
+            from vpa import comp as CP
+            tgt = CP.canon(simplify(dag.place(m.data['pl'], m.bb, m.idx)))      # index form, whether the arrays are indexed or walked with iter_mut().zip()
+            val = CP.canon(simplify(dag.rvalue(m.data['rv'], m.bb, m.idx)))
             # classified by what is stored, not by the name of the array: rows of V^T, or singular values
             if find('(field v_t _)', val) is not None:
                 vals['basis'] = (tgt, val)
